@@ -112,7 +112,7 @@ def cstr(s):
     """A Coq string term for a Python str (UTF-8 bytes)."""
     b = s.encode('utf-8') if isinstance(s, str) else bytes(s)
     if all((32 <= x <= 126) for x in b):
-        return '"' + b.decode('ascii').replace('"', '""') + '"'
+        return '"' + b.decode('ascii').replace('"', '""') + '"%string'
     return '(bs [' + ';'.join(str(x) for x in b) + '])'
 
 
@@ -169,7 +169,7 @@ def coq_cases(prop, name, imports, body, evals, timeout=900):
     d = os.path.join(COQ, 'Cases', prop)
     os.makedirs(d, exist_ok=True)
     path = os.path.join(d, name + '.v')
-    text = imports + '\nFrom Coq Require Import List. Import ListNotations.\n' + body + '\n' + '\n'.join(
+    text = imports + '\nFrom Coq Require Import List String. Import ListNotations.\n' + body + '\n' + '\n'.join(
         f'Eval vm_compute in ({e}).' for e in evals) + '\n'
     with open(path, 'w') as f:
         f.write(text)
